@@ -11,9 +11,12 @@
    A *term* is <<name, child_1, ..., child_n>>.  The specification fixes which form may stand in
    which position (Accepts) and enumerates
 
-     Chain(s, d)   every term of sort s whose constructors form a single spine of length <= d
+     spines        every term whose constructors form a single spine of length <= MaxDepth
                    (all other children are the default leaf of their sort): every form in every
-                   position of every other form, to nesting depth d;
+                   position of every other form, to nesting depth MaxDepth. A spine is built by the
+                   state machine below (Extend appends a constructor and the slot the spine
+                   continues in, Close puts a nullary form at its end), so TLC's reachable states
+                   are exactly the spine terms and their prefixes;
      Full2         every binary operator over every pair of depth-1 operator terms: all
                    (precedence, associativity, side) combinations, both children non-trivial.
 
@@ -28,8 +31,9 @@
    G program (sequence of declarations). *)
 EXTENDS Naturals, Sequences, FiniteSets, TLC, Json
 
-CONSTANTS ExprDepth,     \* spine length of the expression chains (2 quick, 3 thorough)
-          FormDepth,     \* spine length of the declaration/statement/type chains below a declaration
+CONSTANTS Family,        \* "expr": expression spines below `let x = _`;  "form": declaration/statement/type spines;
+                         \* "full": the products Full2 / Cond3 / declaration pairs
+          MaxDepth,      \* number of constructors on a spine below the root
           FullOps        \* "reps" (one operator per precedence level as children of Full2) or "all"
 
 Sig(n, s, t, sl) == <<n, s, t, sl>>
@@ -244,76 +248,71 @@ Default(slot) == CASE slot = "E" -> <<"id">>      [] slot = "T" -> <<"nom">>    
                    [] slot = "X" -> <<"acc-all">> [] slot = "M" -> <<"nomember">> [] slot = "D" -> <<"tx0">>
                    [] slot = "I" -> <<"nomember">> [] slot = "N" -> <<"case0">>
 
-\* grammatical restrictions of the language (a form that cannot stand in a slot of an otherwise accepted sort)
-Excluded(parent, i, child) == FALSE
-
 Nullary(s) == Len(s[4]) = 0
 Core == EAtomsCore \cup TAtomsCore \cup {s \in AllSigs : Nullary(s) /\ s[2] \notin {"E", "T"}}
+SigByName == [n \in {s[1] : s \in AllSigs} |-> CHOOSE s \in AllSigs : s[1] = n]
+NamesUnique == \A s1, s2 \in AllSigs : s1[1] = s2[1] => s1 = s2
+SlotSorts == {"E", "T", "A", "S", "M", "I", "N", "D", "P", "K", "X", "G"}
+\* per slot sort: the constructors (with children) and the nullary forms that may stand there
+Ctors == TLCEval([srt \in SlotSorts |-> {<<c[1], i>> : c \in {a \in AllSigs : a[2] \in Accepts(srt) /\ ~Nullary(a)}, i \in 1..9} ])
+CtorSlots == TLCEval([srt \in SlotSorts |-> {p \in Ctors[srt] : p[2] <= Len(SigByName[p[1]][4])}])
+AtomsAll  == TLCEval([srt \in SlotSorts |-> {a[1] : a \in {b \in AllSigs : b[2] \in Accepts(srt) /\ Nullary(b)}}])
+AtomsCore == TLCEval([srt \in SlotSorts |-> {a[1] : a \in {b \in AllSigs : b[2] \in Accepts(srt) /\ Nullary(b) /\ b \in Core}}])
+SlotSortOf == TLCEval([p \in UNION {CtorSlots[srt] : srt \in SlotSorts} |-> SigByName[p[1]][4][p[2]]])
 
-Apply(s, i, t) == <<s[1]>> \o [j \in 1..Len(s[4]) |-> IF j = i THEN t ELSE Default(s[4][j])]
+Apply(s, i, u) == <<s[1]>> \o [j \in 1..Len(s[4]) |-> IF j = i THEN u ELSE Default(s[4][j])]
 
-SigsFor(slot) == {s \in AllSigs : s[2] \in Accepts(slot)}
-
-\* every term of a sort accepted by `slot` with a spine of at most d constructors; `core` restricts the
-\* leaves at the bottom of the spine to the core atoms
-RECURSIVE Chain(_, _, _, _)
-Chain(parent, slot, d, core) ==
-  LET cands == {c \in SigsFor(parent[4][slot]) : ~Excluded(parent, slot, c)}
-      atoms == {<<c[1]>> : c \in {a \in cands : Nullary(a) /\ (core => a \in Core)}}
-  IN IF d = 0 THEN atoms
-     ELSE atoms \cup UNION { UNION { {Apply(c, i, u) : u \in Chain(c, i, d - 1, core)} : i \in 1..Len(c[4]) }
-                             : c \in {a \in cands : ~Nullary(a)} }
-
-RootE == CHOOSE s \in GSigs : s[1] = "rootE"
-
-ExprChains == Chain(RootE, 1, 1, FALSE) \cup Chain(RootE, 1, ExprDepth, TRUE)
-
-\* depth-1 operator terms over default leaves, used as both children of every binary operator
+\* ---- products: both children non-trivial
 OpChildren ==
-  LET ops == {s \in ESigs : /\ s[1] \in ({"bin" \o o : o \in IF FullOps = "all" THEN {BinTable[i][1] : i \in BinIdx} ELSE BinReps}
+  LET ops == {s \in ESigs : s[1] \in ({"bin" \o o : o \in IF FullOps = "all" THEN {BinTable[i][1] : i \in BinIdx} ELSE BinReps}
                                         \cup {"cast-as", "cast-as?", "neg", "not", "move", "ref", "cond", "force", "optmember", "index", "call1", "deref"})}
   IN {Apply(s, 0, <<"id">>) : s \in ops}
 Full2 == {<<"bin" \o BinTable[i][1], x, y>> : i \in BinIdx, x \in OpChildren, y \in OpChildren}
 Cond3 == {<<"cond", x, y, z>> : x \in OpChildren, y \in {c \in OpChildren : c[1] \in {"cond", "bin??", "bin||", "cast-as", "neg"}},
                                z \in {c \in OpChildren : c[1] \in {"cond", "bin??", "bin||", "cast-as", "move"}}}
+DeclForms == {Apply(c, 0, <<>>) : c \in {a \in AllSigs : a[2] \in Accepts("D")}}
+FullTerms == {<<"rootE", e>> : e \in Full2 \cup Cond3} \cup {<<g, x, y>> : g \in {"prog2", "prog2;"}, x \in DeclForms, y \in DeclForms}
 
-ExprPrograms == {<<"rootE", e>> : e \in ExprChains \cup Full2 \cup Cond3}
-Prog1 == CHOOSE s \in GSigs : s[1] = "prog1"
-FormPrograms == {<<"prog1", d>> : d \in Chain(Prog1, 1, FormDepth, TRUE) \cup Chain(Prog1, 1, 2, FALSE)} \cup
-                {<<g, x, y>> : g \in {"prog2", "prog2;"}, x \in Chain(Prog1, 1, 1, TRUE), y \in Chain(Prog1, 1, 1, TRUE)}
-
-CONSTANT Family    \* "expr" | "form"
-Programs == IF Family = "expr" THEN ExprPrograms ELSE FormPrograms
-
-\* ------------------------------------------------------------- model statements
-SigByName == [n \in {s[1] : s \in AllSigs} |-> CHOOSE s \in AllSigs : s[1] = n]
-NamesUnique == \A s1, s2 \in AllSigs : s1[1] = s2[1] => s1 = s2
-
-RECURSIVE WellSorted(_, _)
-WellSorted(t, slot) ==
-  /\ t[1] \in DOMAIN SigByName
-  /\ LET s == SigByName[t[1]] IN
-     /\ s[2] \in Accepts(slot)
-     /\ Len(t) = 1 + Len(s[4])
-     /\ \A i \in 1..Len(s[4]) : WellSorted(t[i + 1], s[4][i])
-
-\* every ordered pair of binary-operator precedence levels occurs with the inner operator on the left and on the right
+\* every ordered pair of binary-operator precedence levels occurs with the inner operator on either side
 Levels == {BinTable[i][2] : i \in BinIdx}
-BinName(i) == "bin" \o BinTable[i][1]
-BinNames == {BinName(i) : i \in BinIdx}
-LevelOf == [n \in BinNames |-> BinTable[CHOOSE i \in BinIdx : BinName(i) = n][2]]
-BinBin == {u \in ExprChains : u[1] \in BinNames}
-CoveredPairs == UNION {{<<LevelOf[u[1]], side, LevelOf[u[side][1]]>> : side \in {k \in {2, 3} : u[k][1] \in BinNames}} : u \in BinBin}
-PrecedencePairsCovered == CoveredPairs = Levels \X {2, 3} \X Levels
+LevelOf == TLCEval([n \in {"bin" \o BinTable[i][1] : i \in BinIdx} |-> BinTable[CHOOSE i \in BinIdx : "bin" \o BinTable[i][1] = n][2]])
+CoveredPairs == UNION {{<<LevelOf[u[1]], side, LevelOf[u[side][1]]>> : side \in {k \in {2, 3} : u[k][1] \in DOMAIN LevelOf}} : u \in Full2}
 ASSUME NamesUnique
-ASSUME Family = "expr" => PrecedencePairsCovered
+ASSUME CoveredPairs = Levels \X {2, 3} \X Levels
 
-VARIABLE t
-Init == t \in Programs
-Next == FALSE /\ UNCHANGED t
-Spec == Init /\ [][Next]_t
-TermOK == WellSorted(t, "G")
-Emit == PrintT(ToJson(t))
-SigTable == PrintT(ToJson([sigs |-> AllSigs]))
+\* ------------------------------------------------------------- the enumerator
+VARIABLES sp,     \* the spine: sequence of <<form, slot>> -- the form and the child the spine continues in
+          leaf,   \* the nullary form closing the spine ("" while the spine is open)
+          full    \* a complete term of the product families (<<>> otherwise)
+vars == <<sp, leaf, full>>
+Root == IF Family = "expr" THEN <<<<"rootE", 1>>>> ELSE <<>>
+RootLen == Len(Root)
+CurSort == IF Len(sp) = 0 THEN "G" ELSE SlotSortOf[sp[Len(sp)]]
+Init == IF Family = "full" THEN sp = <<>> /\ leaf = "" /\ full \in FullTerms
+        ELSE sp = Root /\ leaf = "" /\ full = <<>>
+Extend == /\ Family # "full" /\ leaf = "" /\ Len(sp) - RootLen < MaxDepth
+          /\ \E p \in CtorSlots[CurSort] : p[1] # "rootE" /\ sp' = Append(sp, p)
+          /\ UNCHANGED <<leaf, full>>
+\* below the first constructor only the core nullary forms close a spine (identifier, integer, nominal type, ...)
+Close  == /\ Family # "full" /\ leaf = "" /\ Len(sp) > 0
+          /\ \E a \in (IF Len(sp) - RootLen <= 1 THEN AtomsAll ELSE AtomsCore)[CurSort] : leaf' = a
+          /\ UNCHANGED <<sp, full>>
+Next == Extend \/ Close
+Spec == Init /\ [][Next]_vars
+
+SpineOK == /\ \A k \in 1..Len(sp) : sp[k] \in DOMAIN SlotSortOf
+           /\ \A k \in 2..Len(sp) : SigByName[sp[k][1]][2] \in Accepts(SlotSortOf[sp[k - 1]])
+           /\ leaf # "" => SigByName[leaf][2] \in Accepts(CurSort) /\ Nullary(SigByName[leaf])
+RECURSIVE WellSorted(_, _)
+WellSorted(u, slot) ==
+  /\ u[1] \in DOMAIN SigByName
+  /\ LET s == SigByName[u[1]] IN
+     /\ s[2] \in Accepts(slot)
+     /\ Len(u) = 1 + Len(s[4])
+     /\ \A i \in 1..Len(s[4]) : WellSorted(u[i + 1], s[4][i])
+FullOK == full # <<>> => WellSorted(full, "G")
+Emit == /\ leaf # "" => PrintT(ToJson([sp |-> sp, leaf |-> leaf]))
+        /\ full # <<>> => PrintT(ToJson([full |-> full]))
+SigTable == PrintT(ToJson([sigs |-> AllSigs, defaults |-> [srt \in SlotSorts \ {"G"} |-> Default(srt)]]))
 ASSUME SigTable
 ====
